@@ -66,7 +66,17 @@ def make_group(name, nover, ndef, explicit, tmpl, generic, cls=None, strres=Fals
     return fs
 
 
-def build_lib(name, groups, lang="c++", wraps=("c", "fortran", "python", "lua"), namespace=None, fmt=None, interleave=False):
+ASSUMED_RANK_NEIGHBOUR = {
+    # docs/fortran.rst assumed rank (generic.yaml SumValues): Shroud expands the declaration into one specific per rank;
+    # it stands before the modelled declarations, its own names are not judged
+    "raw_decls": [{"decl": "int vfSumValues(const int *values +dimension(..), int nvalues)", "options": {"F_assumed_rank_max": 2}}],
+    "raw_header": "int vfSumValues(const int *values, int nvalues);",
+    "raw_impl": "int vfSumValues(const int *values, int nvalues) { int i, s = 0; for (i = 0; i < nvalues; i++) s += values[i]; return s; }",
+    "raw_ignore": r"vf_?sum_?values",
+}
+
+
+def build_lib(name, groups, lang="c++", wraps=("c", "fortran", "python", "lua"), namespace=None, fmt=None, interleave=False, neighbour=None):
     funcs = []
     classes = []
     if interleave:
@@ -88,6 +98,8 @@ def build_lib(name, groups, lang="c++", wraps=("c", "fortran", "python", "lua"),
             funcs.append(f)
     opts = {"wrap_c": "c" in wraps, "wrap_fortran": "fortran" in wraps, "wrap_python": "python" in wraps, "wrap_lua": "lua" in wraps}
     lib = {"name": name, "language": lang, "functions": funcs, "options": opts, "format": dict(fmt or {}), "namespace": namespace, "wraps": list(wraps)}
+    if neighbour:
+        lib.update(neighbour)
     libs.assign_names(lib)
     return lib
 
@@ -177,6 +189,8 @@ def run_library(case):
             for s in set(syms):
                 base = re.sub(r"(_bufferify|_CFI)$", "", s)
                 if s in c_names or base in c_names:
+                    continue
+                if lib.get("raw_ignore") and re.search(lib["raw_ignore"], s, re.I):
                     continue
                 if s.startswith(prefix + "SHROUD_") or s.startswith(prefix + "Shroud") or re.search(r"_(get_instance|set_instance|associated|final|dtor)$", s):
                     continue
@@ -276,7 +290,15 @@ def parse_fortran(code):
 def run_cppif(case):
     """Overload sets of which some members carry cpp_if: with the macro defined and undefined, the generic interface of a
     C++ name must list exactly the specifics that exist in that configuration (the preprocessor sees the module)."""
-    lib, guarded = case["lib"], set(case["guarded"])
+    lib = case["lib"]
+    conds = dict(case.get("conds") or {x: "ifdef VF_GUARD" for x in case["guarded"]})
+    macros = sorted({c.split()[1] for c in conds.values()})
+    def holds(spec, defined):
+        c = conds.get(spec)
+        if not c:
+            return True
+        kw, m = c.split()
+        return (m in defined) if kw == "ifdef" else (m not in defined)
     res = {"violations": [], "stats": {}, "name": lib["name"]}
     rr = engine.generate(lib)
     cwd = rr.get("cwd")
@@ -287,29 +309,40 @@ def run_cppif(case):
             return res
         out = os.path.join(cwd, "out")
         c_names, f_specs, f_generics = expected_names(lib)
-        for mode, flags in (("defined", ["-DVF_GUARD"]), ("undefined", [])):
+        modes = []
+        for bits in itertools.product([False, True], repeat=len(macros)):
+            dset = {m for m, b in zip(macros, bits) if b}
+            modes.append(("+".join(sorted(dset)) or "none-defined", ["-D" + m for m in sorted(dset)], dset))
+        for mode, flags, dset in modes:
             code = ""
             for f in engine.fortran_files(out):
                 p = subprocess.run(["gfortran", "-cpp", "-E", "-P"] + flags + [f], cwd=out, capture_output=True, text=True, timeout=120)
                 if p.returncode != 0:
-                    res["violations"].append({"mech": "module-does-not-preprocess:%s" % mode, "detail": "%s %s\n%s" % (lib["name"], f, p.stderr[:800])})
+                    res["violations"].append({"mech": "module-does-not-preprocess", "detail": "%s %s\n%s" % (lib["name"], f, p.stderr[:800])})
                 code += p.stdout + "\n"
+            # the module must also be accepted by the compiler in this configuration
+            for f in engine.fortran_files(out):
+                q = subprocess.run(["gfortran", "-cpp", "-ffree-form", "-fsyntax-only", "-w"] + flags + [f], cwd=out, capture_output=True, text=True, timeout=120)
+                res["stats"]["cpp_if_module_compiles"] = res["stats"].get("cpp_if_module_compiles", 0) + 1
+                if q.returncode != 0:
+                    w_, m_ = engine.first_error(q.stderr)
+                    res["violations"].append({"mech": "cpp_if:module-does-not-compile:%s" % m_, "detail": "%s [defined: %s] %s\n%s" % (lib["name"], mode, f, q.stderr[:1200])})
             code = "\n".join(ln for ln in code.split("\n") if not ln.lstrip().startswith("!"))
             code = re.sub(r"&\s*\n\s*", "", code)
             procs, ifaces = parse_fortran(code)
             for key, specs in f_generics.items():
                 if isinstance(key, str) or key[0] or len(specs) < 2:
                     continue
-                active = sorted(x for x in specs if mode == "defined" or x not in guarded)
+                active = sorted(x for x in specs if holds(x, dset))
                 got = sorted(ifaces.get(key[1]) or [])
                 res["stats"]["cpp_if_generics_checked"] = res["stats"].get("cpp_if_generics_checked", 0) + 1
                 missing_procs = [x for x in active if x not in procs]
                 if missing_procs:
-                    res["violations"].append({"mech": "cpp_if:specific-missing:%s" % mode,
+                    res["violations"].append({"mech": "cpp_if:specific-missing:%s" % ("all-defined" if len(dset) == len(macros) else "some-undefined"),
                                               "detail": "%s [%s]: module procedures %s expected, module has %s" % (lib["name"], mode, missing_procs, procs)})
                 elif got != active and not (len(active) == 1 and not got):
-                    res["violations"].append({"mech": "cpp_if:generic-differs:%s" % mode,
-                                              "detail": "%s [VF_GUARD %s]: generic %s lists %r; the specifics that exist are %r" % (lib["name"], mode, key[1], got, active)})
+                    res["violations"].append({"mech": "cpp_if:generic-differs:%s" % ("all-defined" if len(dset) == len(macros) else "some-undefined"),
+                                              "detail": "%s [defined: %s]: generic %s lists %r; the specifics that exist are %r" % (lib["name"], mode, key[1], got, active)})
         return res
     finally:
         if cwd:
@@ -331,6 +364,34 @@ def _kind(lib, cname):
                     k.append("class")
                 return "+".join(k) or "plain"
     return "?"
+
+
+def cppif_cases():
+    """Overload sets whose members carry cpp_if conditions (some members / every member, equal or different conditions)."""
+    # cpp_if on some members of an overload set (first / last / middle member guarded)
+    cpp_cases = []
+    for ci, (nover, which) in enumerate([(2, [0]), (2, [1]), (3, [0]), (3, [1]), (3, [0, 2]), (3, [2])]):
+        g = make_group("g0name", nover, 0, None, False, None)
+        guarded = []
+        for wi in which:
+            g[wi].setdefault("yaml", {})["cpp_if"] = "ifdef VF_GUARD"
+        libc = build_lib("ncpp%d" % ci, [g, make_group("g1name", 1, 0, None, False, None)], "c++", ("c", "fortran"))
+        for wi in which:
+            guarded += [v["f_specific"] for v in libc["functions"][wi]["variants"]]
+        cpp_cases.append({"lib": libc, "guarded": guarded})
+    # every member guarded, with different conditions (ifdef / ifndef of one macro; two macros; same condition everywhere)
+    for ci, condl in enumerate([["ifdef VF_A", "ifndef VF_A"], ["ifdef VF_A", "ifdef VF_B"], ["ifdef VF_A", "ifdef VF_A"],
+                                ["ifndef VF_A", "ifdef VF_A", "ifdef VF_B"], ["ifdef VF_B", "ifdef VF_A", "ifdef VF_A"]]):
+        g = make_group("g0name", len(condl), 0, None, False, None)
+        for wi, c_ in enumerate(condl):
+            g[wi].setdefault("yaml", {})["cpp_if"] = c_
+        libc = build_lib("ncppall%d" % ci, [g, make_group("g1name", 1, 0, None, False, None)], "c++", ("c", "fortran"))
+        conds = {}
+        for wi, c_ in enumerate(condl):
+            for v in libc["functions"][wi]["variants"]:
+                conds[v["f_specific"]] = c_
+        cpp_cases.append({"lib": libc, "guarded": sorted(conds), "conds": conds})
+    return cpp_cases
 
 
 def main(rec):
@@ -366,7 +427,9 @@ def main(rec):
         fmt = [{}, {"C_prefix": "ZZ_"}][k % 2]
         wraps = [("c", "fortran"), ("c", "fortran", "python"), ("c", "fortran", "python", "lua")][k % 3]
         # python/lua cannot wrap templates/generics the same way; names there are checked for duplicates only
-        cases.append({"lib": build_lib("n%d" % k, groups, "c++", wraps, namespace=ns, fmt=fmt, interleave=(k % 4 >= 2))})
+        # every other library starts with an assumed-rank declaration (processed before the modelled ones)
+        cases.append({"lib": build_lib("n%d" % k, groups, "c++", [w for w in wraps if k % 2 == 0 or w in ("c", "fortran")], namespace=ns, fmt=fmt, interleave=(k % 4 >= 2),
+                                       neighbour=(ASSUMED_RANK_NEIGHBOUR if k % 2 else None))})
     # two overloaded function templates with the same instantiation list
     tt = [F("ttname", "int", [P("t", "val", "ArgType")], template=["int", "double"], fid="tt#0"),
           F("ttname", "int", [P("t", "val", "ArgType"), P("b", "val", "int")], template=["int", "double"], fid="tt#1")]
@@ -396,17 +459,7 @@ def main(rec):
         for gi, nm in enumerate(camel[ci:ci + 5]):
             groups.append(make_group(nm, 1 + (gi % 2), gi % 3 if gi % 2 == 0 else 0, None, False, None, cls=("K0" if gi == 3 else None)))
         cases.append({"lib": build_lib("ncamel%d" % (ci // 5), groups, "c++", ("c", "fortran", "python") if ci else ("c", "fortran"))})
-    # cpp_if on some members of an overload set (first / last / middle member guarded)
-    cpp_cases = []
-    for ci, (nover, which) in enumerate([(2, [0]), (2, [1]), (3, [0]), (3, [1]), (3, [0, 2]), (3, [2])]):
-        g = make_group("g0name", nover, 0, None, False, None)
-        guarded = []
-        for wi in which:
-            g[wi].setdefault("yaml", {})["cpp_if"] = "ifdef VF_GUARD"
-        libc = build_lib("ncpp%d" % ci, [g, make_group("g1name", 1, 0, None, False, None)], "c++", ("c", "fortran"))
-        for wi in which:
-            guarded += [v["f_specific"] for v in libc["functions"][wi]["variants"]]
-        cpp_cases.append({"lib": libc, "guarded": guarded})
+    cpp_cases = cppif_cases()
     cres = pool.run_cases("vf.checks.c08", cpp_cases, func="run_cppif", timeout=600)
     for c, rr in zip(cpp_cases, cres):
         if "stats" not in rr:
